@@ -34,7 +34,7 @@ def have_std() -> bool:
 def header(g=True) -> str:
     h = HEADER
     if have_std():
-        h += 'From PT Require Import Lang.WriteStd.\n'
+        h += 'From PT Require Import Lang.WriteStd Lang.ParseStd.\n'
     return h + ('Require Import GC12.Tables.\n' if g else '')
 
 
@@ -78,6 +78,10 @@ def emit_wtable(name: str, ent: dict) -> str:
     return f'Definition {name} : wtable := {{|\n  ' + ';\n  '.join(f'{k} := {v}' for k, v in fields) + ' |}.\n'
 
 
+def tname(e) -> str:
+    return f"w_{e['notation']}_{e['format']}_{e['dialect']}"
+
+
 def find_strings(tb, notation, fmt, dialect):
     for e in tb['strings']:
         if (e['notation'], e['format'], e['dialect']) == (notation, fmt, dialect):
@@ -114,6 +118,25 @@ def emit_tables(chk: Check, tb: dict) -> bool:
         body = [header(False), pl.emit_ptable('polish_table', tb['parse']['polish']),
                 pl.emit_ptable('standard_table', tb['parse']['standard']),
                 emit_wtable('polish_ascii_w', find_strings(tb, 'polish', 'text', 'ascii'))]
+        if have_std():
+            body.append('From PT Require Import Lang.WriteStd Lang.ParseStd.')
+            for e in tb['strings']:
+                nm = tname(e)
+                if e['notation'] == 'polish':
+                    body.append(emit_wtable(nm, e))
+                else:
+                    get = table_lookup(e['strings'])
+                    body.append(emit_wtable(nm + '_base', e))
+                    body.append(f'Definition {nm} : swtable := {{| sw := {nm}_base; '
+                                f'sw_popen := {ostr(get("Marking", "paren_open"))}; '
+                                f'sw_pclose := {ostr(get("Marking", "paren_close"))}; '
+                                f'sw_ws := {ostr(get("Marking", "whitespace"))}; '
+                                f'sw_neqid := {ostr(get("tuple", ["Negation", "Identity"]))} |}}.\n')
+            rev = tb['reversed']['standard']
+            po, pc = rev['paren_open'], rev['paren_close']
+            if not (isinstance(po, list) and isinstance(pc, list) and len(po) == 1 and len(pc) == 1):
+                raise pl.Inexpressible(f'standard table reversed parens: {po!r} {pc!r}')
+            body.append(f'Definition std_opts : sopts := {{| drop_parens := true; popen := {po[0]}%N; pclose := {pc[0]}%N |}}.\n')
     except pl.Inexpressible as e:
         chk.obligation('tables:expressible', False)
         chk.violation('tables:inexpressible', f'tables cannot be expressed in the model: {e}',
@@ -291,7 +314,13 @@ def run(args) -> int:
                 continue
             seen.add(k)
             sents.append((cat, j))
-    polish_roundtrip_cases(chk, sents)
+    in_lang = polish_roundtrip_cases(chk, sents)
+    if have_std():
+        step = max(1, len(sents) // (6000 if thorough else 500))
+        sample = [j for _, j in sents[::step]]
+        all_tables_cases(chk, tb, sample)
+        lang = [j for _, j in sents if in_lang.get(json.dumps(j))]
+        standard_denotes(chk, tb, rng, lang[::max(1, len(lang) // (8000 if thorough else 700))])
     boundary(chk)
     argstr_cases(chk, rng, 3000 if thorough else 300)
     chk.checker_cmd = ('coqc gen/C12/{Tables,Status,Obl,RT*,Arg*}.v against coq/theories/Lang/{PSyntax,Dec,ParsePolish,'
@@ -316,6 +345,7 @@ def polish_roundtrip_cases(chk: Check, sents):
     real = probe_json('probe_parse.py', ['write'], stdin=json.dumps(jobs), timeout=1800)
     model = eval_nested(exprs, 'RT', 4, 4)
     written_by = {}
+    in_lang = {}
     k = 0
     for job, rr, mm in zip(jobs, real, model):
         if len(mm) != len(job['sents']):
@@ -335,6 +365,8 @@ def polish_roundtrip_cases(chk: Check, sents):
                 raise MachineryError(f'serialisation mismatch {r["ser"]} vs {ser}')
             m_written = None if m[0] == 'WERR' else [int(x, 2) for x in m[0].split()]
             rt = m[1] == 'T'
+            in_lang[json.dumps(j)] = rt
+            _LANG[json.dumps(j)] = rt
             chk.count('in_language', str(rt))
             if isinstance(r['written'], str) or m_written is None:
                 if not (isinstance(r['written'], str) and m_written is None):
@@ -365,6 +397,100 @@ def polish_roundtrip_cases(chk: Check, sents):
                 elif got != mod and not (label == 'declared' and not rt):
                     chk.violation(f'polish:model-mismatch:{label}', f'parse of {render_cps(r["written"])!r}: '
                                   f'implementation {got[:120]!r}, model {mod[:120]!r}', dict(rep, expect=mod, mode=label))
+    return in_lang
+
+
+def all_tables_cases(chk: Check, tb, sample):
+    """Model writer = real writer on every (notation, format, dialect) string table; collision search
+    (distinct sentences, same string) inside each table; standard ASCII: the real standard parser reads
+    the real standard writer's output back."""
+    jobs, exprs = [], []
+    for e in tb['strings']:
+        std = e['notation'] == 'standard'
+        ascii_std = std and e['format'] == 'text' and e['dialect'] == 'ascii'
+        job = dict(notation=e['notation'], format=e['format'], dialect=e['dialect'], sents=sample)
+        if ascii_std:
+            job['parse'] = {}
+        jobs.append(job)
+        fn = 'ws_case' if std else 'wp_case'
+        exprs.append(f'map ({fn} {tname(e)}) [' + '; '.join(pl.coq_sent(j) for j in sample) + ']')
+    real = probe_json('probe_parse.py', ['write'], stdin=json.dumps(jobs), timeout=1800)
+    model = pl.eval_string_lists(PID, header(), exprs, name='Tab', shard=1)
+    for job, rr, mm in zip(jobs, real, model):
+        tkey = f"{job['notation']}/{job['format']}/{job['dialect']}"
+        if len(mm) != len(sample):
+            raise MachineryError(f'Tab {tkey}: {len(mm)} answers')
+        seen = {}
+        for j, r, m in zip(sample, rr, mm):
+            ser = pl.ser_json(j)
+            chk.case(['table', tkey, j], nontrivial=j[0] != 'A')
+            chk.count('table', tkey)
+            rep = dict(kind='roundtrip', notation=job['notation'], format=job['format'], dialect=job['dialect'], sentence=j)
+            m_w = None if m == 'WERR' else [int(x, 2) for x in m.split()]
+            r_w = None if isinstance(r.get('written'), str) else r.get('written')
+            if r_w != m_w:
+                chk.violation(f'{tkey}:writer-mismatch', f'writer {tkey} on {ser}: implementation '
+                              f'{render_cps(r.get("written"))!r}, model {render_cps(m_w)!r}', dict(rep, expect_written=m_w))
+                continue
+            if r_w is None:
+                continue
+            w = tuple(r_w)
+            if w in seen and seen[w] != ser:
+                chk.violation(f'{tkey}:not-injective', f'{seen[w]} and {ser} both render to {render_cps(r_w)!r} in {tkey}',
+                              dict(rep, other=seen[w], expect_distinct=True))
+            seen[w] = ser
+            if 'parse' in job and in_language(j):
+                # NOT part of the property (C12 claims the writer->parser round trip for Polish only): recorded
+                # as an observation.  Known gaps: Existence is written 'E!' but parsed from '!', and the
+                # negated-identity symbol '!=' is not in the parse table.
+                got = r.get('parsed_auto')
+                ok = got == 'OK ' + ser
+                feats = ('existence' if 'Et(' in ser else '') + ('+neg-identity' if 'Ne[Id(' in ser else '')
+                chk.count('standard_ascii_writer_to_parser(observation)', ('ok' if ok else 'fails') + (':' + feats if feats else ''))
+                if not ok and not feats:
+                    chk.notes.setdefault('standard_ascii_roundtrip_other_failures', []).append(
+                        dict(sentence=ser, written=render_cps(r_w), parsed=got))
+
+
+_LANG = {}
+
+
+def in_language(j) -> bool:
+    return _LANG.get(json.dumps(j), True)
+
+
+def standard_denotes(chk: Check, tb, rng, lang):
+    """Every decoration of a sentence of the language (infix or prefix predicates, outer parentheses kept or
+    dropped, extra whitespace anywhere) is mapped to that sentence by the standard parser (real and model)."""
+    ref = pl.Ref(tb['parse']['standard'])
+    inputs, want = [], []
+    for j in lang:
+        for v in range(2):
+            s = pl.std_render(ref, j, rng)
+            if v == 1:
+                for _ in range(rng.randint(0, 3)):
+                    p = rng.randrange(len(s) + 1)
+                    s = s[:p] + ' ' * rng.randint(1, 2) + s[p:]
+            inputs.append(s)
+            want.append('OK ' + pl.ser_json(j))
+    CH = 400
+    jobs = [dict(notation='standard', preds=[], auto=True, mode='fresh', inputs=inputs[i:i + CH])
+            for i in range(0, len(inputs), CH)]
+    real = probe_json('probe_parse.py', ['parse'], stdin=json.dumps(jobs), timeout=1800)
+    exprs = ['map (sp_case standard_table std_opts) [' + '; '.join(pl.coq_str(i) for i in job['inputs']) + ']' for job in jobs]
+    model = pl.eval_string_lists(PID, header(), exprs, name='Den', shard=1)
+    k = 0
+    for job, rr, mm in zip(jobs, real, model):
+        for i, r, m in zip(job['inputs'], rr['results'], mm):
+            chk.case(['denotes', i], nontrivial=True, sample=dict(standard_input=i, outcome=r[:80]) if k % 199 == 3 else None)
+            chk.count('standard_denotes', 'ok' if r == want[k] else 'differs')
+            rep = dict(kind='parse', job=dict(notation='standard', preds=[], auto=True, mode='fresh', inputs=[i]), expect=want[k])
+            if r != want[k]:
+                chk.violation('standard:denotes', f'standard parser maps {i!r} to {r[:120]!r}, expected {want[k][:120]!r}', rep)
+            elif m.partition(' # ')[0] != r:
+                chk.violation('standard:model-mismatch', f'standard parser on {i!r}: implementation {r[:120]!r}, model {m[:120]!r}',
+                              dict(rep, expect=m.partition(' # ')[0]))
+            k += 1
 
 
 def eval_nested(exprs, name, width, workers=4):
@@ -461,10 +587,18 @@ def replay(path: str) -> int:
         want = 'OK ' + r.get('ser', '?')
         bad = isinstance(r.get('written'), str) or any(
             r.get(k) not in (None, want) and not str(r.get(k)).startswith('STORE') for k in ('parsed_auto', 'parsed_declared'))
-        if 'expect_written' in rep and rep['expect_written'] is not None:
-            bad = r.get('written') != rep['expect_written']
+        if 'expect_written' in rep:
+            bad = (None if isinstance(r.get('written'), str) else r.get('written')) != rep['expect_written']
+        if rep.get('expect_distinct'):
+            r2 = probe_json('probe_parse.py', ['write'], stdin=json.dumps(
+                [dict(notation=rep['notation'], format=rep['format'], dialect=rep['dialect'], sents=[j])]))[0][0]
+            bad = True   # the recorded pair is re-derived by the full check
         print(f'replay: written={render_cps(r.get("written"))!r} auto={str(r.get("parsed_auto"))[:100]} '
               f'declared={str(r.get("parsed_declared"))[:100]}')
+    elif kind == 'parse':
+        r = probe_json('probe_parse.py', ['parse'], stdin=json.dumps([rep['job']]))[0]
+        bad = r['results'][0] != rep['expect']
+        print(f"replay: {rep['job']['inputs'][0]!r} -> {r['results'][0][:200]}")
     elif kind == 'argstr':
         r = probe_json('probe_parse.py', ['argstr'], stdin=json.dumps([rep['sentences']]))[0]
         bad = 'error' in r or r['back'] != r['orig'] or not r['equal']
